@@ -134,6 +134,12 @@ def main():
                 jobs.append((seq_job, (dual, (a, 'setR', b))))
                 jobs.append((seq_job, (dual, (a, 'refill', 'setR', b))))
         jobs.append((seq_job, (dual, ('ins_nohint', 'find', 'ins_nohint', 'find'))))
+        # a lookup (or hint-less insertion), then the looked-up interval split by a HINTED insertion, then a lookup / hint-less insertion
+        # (round 4, C19d-m1: a covering-interval cache that only the hint-less path invalidates)
+        for a in ('find', 'ins_nohint'):
+            for c in ('find', 'ins_nohint'):
+                jobs.append((seq_job, (dual, (a, 'ins_hint', c))))
+        jobs.append((seq_job, (dual, ('find', 'ins_hint', 'ins_hint', 'find'))))
     for maxlen in (1, 2, 3):
         for n in ((2, 4) if quick else (2, 3, 4, 5)):
             jobs.append((bounded_job, (maxlen, n)))
